@@ -160,7 +160,7 @@ def replay(case):
 
 def main(prop, tier):
     t0 = time.time()
-    rots = (0, 3) if tier == "quick" else range(len(WORD))
+    rots = (0, 3) if tier == "quick" else (0, 2, 4, 6)
     var = A.variant()
     items = [(tier, cfg["label"], host, (r + var["rot"]) % len(WORD)) for cfg in ALL + PATTERNS for host in HOSTS for r in rots]
     rep = merge_all(pmap(measure, items, chunksize=2))
